@@ -139,7 +139,13 @@ func c12Ext4OverFat(fstype string, reserved uint16) {
 	vp.AssertUnless("KF-C12-2", stale, got.Type() == filesystem.TypeExt4, "a range on which ext4 was created is reported as ext4, not as the FAT volume it held before")
 }
 
-func VP_C12_ext4_over_stale_fat12() { c12Ext4OverFat("FAT12   ", 1) }
+func VP_C12_ext4_over_stale_fat12() {
+	if vp.Thorough() {
+		c12Ext4OverFat("FAT12   ", 1)
+	} else {
+		vp.Cover("thorough tier only")
+	}
+}
 func VP_C12_ext4_over_stale_fat16() { c12Ext4OverFat("FAT16   ", 4) }
 
 // VP_C12_scenario_ext4_mbrpart: ext4 created in an MBR partition, then a freshly opened disk:
